@@ -663,7 +663,7 @@ def impl_vs_impl(chk, bA, bB, xv, pA, pB, what):
 @register
 class C09(NlpCheck):
     pid = "C09"
-    slices = ["parametric-nlp", "shifted-operands-with-interval-parameters", "constants-written-in", "set_value-histories", "matrix-valued-parameters"]
+    slices = ["parametric-nlp", "shifted-operands-with-interval-parameters", "constants-written-in", "set_value-histories", "matrix-valued-parameters", "horizon-parameter-histories"]
     tags = None
     whole = True
     want_f = True
@@ -691,6 +691,61 @@ class C09(NlpCheck):
         self.constants_slice()
         self.history_slice()
         self.matrix_parameter_slice()
+        self.horizon_parameter_history_slice()
+
+    def horizon_parameter_history_slice(self):
+        """a horizon given by parameters, values replaced AFTER the first transcription: objective, rows AND the starting point (guesses
+        written as expressions of time are evaluated on the time grid) are those of the problem declared with the new values from the
+        start. Non-localized grids (localized grid variables keep their first initialisation: the recorded known finding of C10)"""
+        import casadi as ca
+        n = 6 if self.tier == 'quick' else 60
+        prof = {'methods': ALLM, 'grids': ['uniform', 'geometric'], 'horizon': ['param'], 'obj_kinds': ['at_tf', 'integral'], 'ncons': (0, 1),
+                'features': {'p': 0.5}, 'Ns': [2, 3], 'Ms': [1, 2], 'degrees': [1, 2], 'nxs': [1, 2], 'nus': [1]}
+        for it in range(n + 2):
+            localized = it >= n       # two cases on localized grids at the end: the starting values of the grid's own variables
+            d = G.gen_case(self.rng, dict(prof, grids=['uniform_locT', 'geometric_locT']) if localized else prof)
+            nst = len(d['states'])
+            i = self.rng.randrange(nst)
+            d['initial_list'] = [('x', i, ('expr', [('+', ('*', Mo.E.C(G.coef(self.rng)), ('t',)), Mo.E.C(G.coef(self.rng))) for _r in range(d['states'][i])]))]
+            npg = sum(d['params'][''])
+            offs = sym_offsets(d['params'][''])
+            hz = {key: [j for j, sz in enumerate(d['params']['']) if offs[j] == d[key][1]][0] for key in ('t0', 'T')}
+
+            def values(shift):
+                out = {}
+                for j, sz in enumerate(d['params']['']):
+                    out[('', j)] = ca.DM([float(Fr(self.rng.randint(1, 8), 4)) for _ in range(sz)])
+                return out
+            v1, v2 = values(0), values(1)
+            if float(v1[('', hz['T'])]) == float(v2[('', hz['T'])]):
+                v2[('', hz['T'])] = v2[('', hz['T'])] + 0.75
+            try:
+                dA = copy.deepcopy(d); dA['param_values'] = v1
+                bA = B.build(dA, transcribe=False)
+                with B.quiet():
+                    bA.ocp._transcribed
+                    for (gk, j), val in v2.items():
+                        bA.ocp.set_value(bA.params[''][j], val)
+                dB = copy.deepcopy(d); dB['param_values'] = v2
+                bB = B.build(dB, transcribe=False)
+                with B.quiet():
+                    bB.ocp._transcribed
+                    B.finish(bB)
+                err = nlp_signature_compare(bA.ocp, bB, self.rng, "horizon parameters replaced after the first transcription")
+            except (ZeroDivisionError, OverflowError):
+                continue
+            except Exception as ex:
+                err = "horizon parameters replaced after the first transcription: %s: %s" % (type(ex).__name__, str(ex)[:200])
+            self.evaluations += 1
+            self.signatures.add("hzpar-%d" % it)
+            self.count("horizon-parameter-history")
+            if err:
+                self.slice_ok["horizon-parameter-histories"] = False
+                self.violation(err, {"desc": d, "first": {str(k): v.full().tolist() for k, v in v1.items()}, "then": {str(k): v.full().tolist() for k, v in v2.items()}},
+                               {"kind": "horizon-parameter-history", "method": d['method']['kind'], "localized_grid": localized,
+                                "what": "starting point" if "starting point" in err else "other"})
+                if not localized:
+                    return
 
     def matrix_parameter_slice(self):
         """matrix-valued parameters keep their element layout: a matrix A (also per-interval), a vector b and a scalar c enter the dynamics,
